@@ -1,5 +1,6 @@
 import Juniper.Proofs.TreeHistory
 import Juniper.Proofs.TreeSlots
+import Juniper.Proofs.TreeSpecAdequacy
 /-!
 # C03 — the tree stays balanced and half-full: O(log n) work, no retained garbage (property theorems)
 -/
@@ -75,23 +76,41 @@ theorem min_keys_of_height (cmp : K → K → Int) (t : Tree K V) (hw : WF cmp t
   rw [hw.size]; simpa using this
 
 /-- The depth bound of the property for the shipped fan-out: a tree holding `n` keys has at most
-`1 + ⌊log₈((n+1)/2)⌋` levels, i.e. `levels = height + 1` satisfies `2·8^(levels−1) ≤ n+1`; stated also
-with the integer logarithm (`⌊log₈ x⌋ = ⌊log₂ x⌋ / 3`). -/
-theorem depth_bound (cmp : K → K → Int) (t : Tree K V) (hw : WF cmp t) (hpos : 0 < height t.root) :
-    2 * 8 ^ height t.root ≤ t.size.toNat + 1 ∧
+`1 + ⌊log₈((n+1)/2)⌋` levels (`levels = height + 1`), stated with the integer logarithm
+(`⌊log₈ x⌋ = ⌊log₂ x⌋ / 3`); for two or more levels this is `2·8^(levels−1) ≤ n+1`.
+Convention at the edge: for `n = 0` (and `n ≤ 14`: one level) `(n+1)/2` may be `0` and the bound is read
+with the totalised `Nat.log2 0 = 0`, i.e. "at most 1 level" — the empty tree is its empty root. -/
+theorem depth_bound (cmp : K → K → Int) (t : Tree K V) (hw : WF cmp t) :
+    (0 < height t.root → 2 * 8 ^ height t.root ≤ t.size.toNat + 1) ∧
     height t.root + 1 ≤ 1 + Nat.log2 ((t.size.toNat + 1) / 2) / 3 := by
   have h8 : minKVs.toNat + 1 = 8 := by decide
-  have h1 := min_keys_of_height cmp t hw hpos
-  rw [h8] at h1
-  refine ⟨h1, ?_⟩
-  have h2 : 8 ^ height t.root ≤ (t.size.toNat + 1) / 2 := by omega
-  have h3 : (2 : Nat) ^ (3 * height t.root) ≤ (t.size.toNat + 1) / 2 := by
-    rw [Nat.pow_mul]; exact h2
-  have hne : (t.size.toNat + 1) / 2 ≠ 0 := by
-    have : 0 < 8 ^ height t.root := Nat.pow_pos (by omega)
+  by_cases hpos : 0 < height t.root
+  · have h1 := min_keys_of_height cmp t hw hpos
+    rw [h8] at h1
+    refine ⟨fun _ => h1, ?_⟩
+    have h2 : 8 ^ height t.root ≤ (t.size.toNat + 1) / 2 := by omega
+    have h3 : (2 : Nat) ^ (3 * height t.root) ≤ (t.size.toNat + 1) / 2 := by
+      rw [Nat.pow_mul]; exact h2
+    have hne : (t.size.toNat + 1) / 2 ≠ 0 := by
+      have : 0 < 8 ^ height t.root := Nat.pow_pos (by omega)
+      omega
+    have := (Nat.le_log2 hne).mpr h3
     omega
-  have := (Nat.le_log2 hne).mpr h3
-  omega
+  · exact ⟨fun h => absurd h hpos, by omega⟩
+
+/-- non-vacuity of `min_keys_of_height` / `depth_bound` with `0 < height`: 16 ascending `Put`s split the
+root; the resulting two-level tree is well formed and tight for the bound (`2·8¹ = 16 ≤ 16 + 1`). -/
+example : ∃ t' : Tree Int Int,
+    runMuts (fun a b => a - b) Tree.empty ((List.range 16).map fun (i : Nat) => Mut.put (i : Int) (0 : Int)) = some t' ∧
+      WF (fun a b => a - b) t' ∧ 0 < height t'.root ∧ t'.size = 16 ∧
+      height t'.root + 1 ≤ 1 + Nat.log2 ((t'.size.toNat + 1) / 2) / 3 := by
+  have hc : StrictWeak (fun a b : Int => a - b) := ⟨by intro a b; omega, by intro a b c; omega⟩
+  obtain ⟨t', h1, h2, h3⟩ := inv_runMuts hc ((List.range 16).map fun (i : Nat) => Mut.put (i : Int) (0 : Int))
+    (Tree.empty : Tree Int Int) (inv_empty _)
+  have hlen : (toList t'.root).length = 16 := by
+    rw [h3]; simp only [Tree.empty, toList_leaf]; decide
+  exact ⟨t', h1, h2.wf, height_pos_of_large h2.wf (by rw [hlen]; decide), by rw [h2.wf.size, hlen]; rfl,
+    (depth_bound _ t' h2.wf).2⟩
 
 /-- A `Get`/`Contains` makes at most `maxKVs` (= 15) key comparisons per level. -/
 theorem search_cost (cmp : K → K → Int) (t : Tree K V) (k : K) (hw : WF cmp t) :
@@ -139,9 +158,11 @@ guarded by its regenerated presence fact — maps a clean array to a clean array
 result the tree model uses (leaf insert, remove, `removeRightmost`, both sides of both rotations, both sides of
 `mergeTwo`, the left/right halves of `overfill` incl. the aliasing write loop, the parent insert; all in
 `Proofs/TreeSlots.lean`), and in a clean array no slot at index `≥ n` references anything (`tail_cleared`).
-Missing for the full statement: the composition of these per-array lemmas along `ins`/`del` over whole trees; that
-link is covered on every run by the correspondence (raw slots of the hook dump, pointer-typed keys/values) and the
-`c03-retained` monitor. -/
+The composition of these per-array lemmas over whole trees and all `Put`/`Delete` histories is NOT in this file: it is
+`no_retained_slots_tree` (`Props/C03Slots.lean`, slot-level heap model, every zeroing statement guarded by its fact) together
+with `heap_never_crashes`, `no_retained_reachable`, `unlinked_unreachable` (`Props/C03Link.lean`: the heap model refines the
+functional model, never crashes, and cleanliness holds for exactly the nodes reachable from the root). This theorem is kept
+as the array-level statement about the older single-array model `Model/BTreeSlots.lean`. -/
 theorem no_retained_slots_partial {α : Type} {cap : Nat} {live : List α} {arr : List (Option α)} (hc : Clean cap live arr) :
     (∀ i, live.length ≤ i → i < cap → arr[i]? = some none) ∧
     (∀ idx, idx < live.length →
